@@ -73,6 +73,7 @@ a regular expression, so the synchronization above could also be achieved with:
 
     dst_job.sync(src_job, doc_sync=sync.DocSync.ByKey('foo'))
 """
+import errno
 import logging
 import os
 import re
@@ -322,6 +323,23 @@ class _FileModifyProxy:
     def copytree(self, src, dst, **kwargs):
         """Copy tree src to dst."""
         logger.more(f"Copy tree '{_safe_relpath(src)}' -> '{_safe_relpath(dst)}'.")
+        if self.dry_run:
+            # Create nothing, but fail like shutil.copytree if the destination
+            # exists and report the files that would be copied.
+            if os.path.exists(dst):
+                raise FileExistsError(errno.EEXIST, os.strerror(errno.EEXIST), dst)
+            ignore = kwargs.get("ignore")
+            for dirpath, dirnames, filenames in os.walk(src):
+                if ignore is not None:
+                    ignored = set(ignore(dirpath, dirnames + filenames))
+                    dirnames[:] = [d for d in dirnames if d not in ignored]
+                    filenames = [f for f in filenames if f not in ignored]
+                for filename in filenames:
+                    self.copy(
+                        os.path.join(dirpath, filename),
+                        os.path.join(dst, os.path.relpath(dirpath, src), filename),
+                    )
+            return
         shutil.copytree(src, dst, copy_function=self.copy, **kwargs)
 
     @contextmanager
